@@ -33,6 +33,8 @@ var (
 
 func vForkJoin(ctx context.Context, work forkjoin.Work[provideArgs, int], opts ...forkjoin.Option) (forkjoin.Fork[provideArgs], forkjoin.Join[provideArgs, int], context.CancelFunc) {
 	workers, failFast := forkjoin.VerifOptions(opts...)
+	waitOnCancel := forkjoin.VerifWaitOnCancel(opts...)
+	stuck := false // a started node that ignores cancellation is still running
 	var inputs []provideArgs
 	fork := func(i provideArgs) { inputs = append(inputs, i) }
 	join := func() forkjoin.Results[provideArgs, int] {
@@ -42,8 +44,11 @@ func vForkJoin(ctx context.Context, work forkjoin.Work[provideArgs, int], opts .
 		for i := range inputs {
 			if busy < workers {
 				started[i] = true
-				if inputs[i].client.(*vNode).kind == 7 {
+				if k := inputs[i].client.(*vNode).kind; k == 7 || k == 8 {
 					busy++
+					if k == 8 {
+						stuck = true
+					}
 				}
 			}
 		}
@@ -56,7 +61,7 @@ func vForkJoin(ctx context.Context, work forkjoin.Work[provideArgs, int], opts .
 			if k >= len(inputs) {
 				continue
 			}
-			if !started[k] || inputs[k].client.(*vNode).kind == 7 {
+			if kd := inputs[k].client.(*vNode).kind; !started[k] || kd == 7 || kd == 8 {
 				missing++
 				continue
 			}
@@ -82,7 +87,13 @@ func vForkJoin(ctx context.Context, work forkjoin.Work[provideArgs, int], opts .
 		}
 		return ch
 	}
-	return fork, join, func() {}
+	return fork, join, func() {
+		// the real cancel function waits for every worker when WithWaitOnCancel is set: a node that ignores
+		// cancellation then keeps the caller for ever
+		if waitOnCancel && stuck {
+			<-make(chan struct{})
+		}
+	}
 }
 
 // vWrapErr: an error with a message that wraps a cause (what errors.Wrap / fmt.Errorf("%w") produce).
@@ -98,11 +109,13 @@ func (e vWrapErr) Unwrap() error { return e.cause }
 type vNode struct {
 	Client
 	id   int
-	kind int // 0 success, 1 plain error, 2 timeout-class, 3 syncing, 4 gateway status, 5 connection refused, 6 the node's own request deadline (wrapped context.DeadlineExceeded), 7 hangs
+	kind int // 0 success, 1 plain error, 2 timeout-class, 3 syncing, 4 gateway status, 5 connection refused, 6 the node's own request deadline (wrapped context.DeadlineExceeded), 7 hangs until cancelled, 8 hangs and ignores cancellation
 	code int // http status for kind 4
 }
 
-func (n *vNode) Address() string { return "node" }
+func (n *vNode) Address() string { return vAddrs[n.id%20] }
+
+var vAddrs = []string{0: "node0", 1: "node1", 2: "node2", 10: "node10", 11: "node11", 12: "node12", 19: ""}
 
 func (n *vNode) outcome() (int, error) {
 	switch n.kind {
@@ -145,7 +158,11 @@ func VerifC19Provide() {
 		var ns []*vNode
 		for i := 0; i < n; i++ {
 			k := int(vrt.Byte(vrt.N(name, i)))
-			vrt.Assume(k <= 7)
+			if cancelled {
+				vrt.Assume(k <= 7)
+			} else {
+				vrt.Assume(k <= 8) // 8: hangs and ignores cancellation (only where another node of its group answers)
+			}
 			nd := &vNode{id: base + i, kind: k, code: code}
 			cs, ns = append(cs, nd), append(ns, nd)
 		}
@@ -155,7 +172,7 @@ func VerifC19Provide() {
 	fall, fn := mk("fall", nf, 10)
 	hangs := func(ns []*vNode) (hung, ok bool) {
 		for _, n := range ns {
-			if n.kind == 7 {
+			if n.kind == 7 || n.kind == 8 {
 				hung = true
 			}
 			if n.kind == 0 {
@@ -172,6 +189,14 @@ func VerifC19Provide() {
 		vrt.Assume((!ph || pok) && (!fh || fok))
 	}
 	vOrder = vPerm(perm, 3)
+	// "best" >= 0: the call goes through a selector that has seen that primary answer first in earlier calls (state a
+	// multi client carries from call to call); -1: no selector
+	var sel *bestSelector
+	if b := vrt.Param("best"); b >= 0 {
+		sel = newBestSelector(time.Hour)
+		sel.Increment(vAddrs[b])
+		sel.Increment(vAddrs[b])
+	}
 	ctx, cancel := context.WithCancel(context.Background())
 	vCancelAtJoin, vCancel = cancelled, cancel
 	var out int
@@ -189,6 +214,9 @@ func VerifC19Provide() {
 						<-wctx.Done()
 						return 0, wctx.Err()
 					}
+					if nd.kind == 8 {
+						<-make(chan struct{}) // ignores cancellation
+					}
 					for rank, k := range vOrder {
 						if k == nd.id%10 {
 							time.Sleep(time.Duration(rank) * 40 * time.Millisecond)
@@ -196,7 +224,7 @@ func VerifC19Provide() {
 					}
 				}
 				return nd.outcome()
-			}, nil, nil)
+			}, nil, sel)
 	})
 	if cancelled {
 		vrt.Assert("a call whose context is cancelled returns the context's error (and does not block)", err != nil && errors.Is(err, context.Canceled))
